@@ -39,6 +39,8 @@ type Case struct {
 	// zoo: gateway configuration file given to the engine, real clock
 	Gateway   string `json:"gateway_config,omitempty"`
 	RealClock bool   `json:"real_clock,omitempty"`
+	// additional validator / gateway-load runs (verdicts that depend on map iteration order)
+	Repeat int `json:"repeat,omitempty"`
 }
 
 type LoadObs struct {
@@ -48,6 +50,7 @@ type LoadObs struct {
 	EngineLoad string `json:"engine_load,omitempty"`
 	EngineText string `json:"engine_text,omitempty"`
 	CrashText  string `json:"crash_text,omitempty"`
+	Runs       string `json:"runs,omitempty"`
 }
 
 // verdict code compared with the model: 0 accept, 1 flow files, 2 processors,
@@ -72,7 +75,7 @@ func verdictCode(r *JobResult) int64 {
 
 func loadObs(r *JobResult) *LoadObs {
 	return &LoadObs{Status: r.LoadStatus, Code: verdictCode(r), Text: r.RejectText,
-		EngineLoad: r.EngineLoad, EngineText: r.EngineText, CrashText: r.CrashText}
+		EngineLoad: r.EngineLoad, EngineText: r.EngineText, CrashText: r.CrashText, Runs: r.Runs}
 }
 
 // ---------------------------------------------------------------- Coq terms
@@ -185,7 +188,7 @@ func record(o *c.Out, it *Item, r *JobResult) {
 	cf := &it.Config
 	lo := loadObs(r)
 	dump(it.Label, r)
-	k := Case{Kind: "load", Label: it.Label, Config: cf, Load: lo}
+	k := Case{Kind: "load", Label: it.Label, Config: cf, Load: lo, Repeat: it.Repeat}
 	fam := it.Label
 	if i := strings.Index(fam, ":"); i >= 0 {
 		fam = fam[:i]
@@ -209,7 +212,7 @@ func record(o *c.Out, it *Item, r *JobResult) {
 			o.Count("txn-not-run-after-crash")
 			continue
 		}
-		tk := Case{Kind: "txn", Label: it.Label, Config: cf, Txn: t, Load: lo, Result: tr}
+		tk := Case{Kind: "txn", Label: it.Label, Config: cf, Txn: t, Load: lo, Result: tr, Repeat: it.Repeat}
 		tidx := -1
 		// (a selection probe that panicked gives the model no selection to work with)
 		if (tr.Outcome == "ok" || tr.Outcome == "error") && modelable(cf) && tr.NEvents == len(tr.Events) && tr.SelText == "" {
@@ -241,6 +244,7 @@ func runItems(o *c.Out, items []Item) {
 	jobs := make([]Job, len(items))
 	for i := range items {
 		jobs[i] = jobOf(i, &items[i].Config, items[i].Txns)
+		jobs[i].Repeat = items[i].Repeat
 	}
 	res := runJobs(jobs)
 	for i := range items {
@@ -320,7 +324,11 @@ func main() {
 	o.DeclareSuite("txn", "From Verif Require Import C05.Model.", "case_txn", "run_txn")
 	o.Rule("hand-written witnesses of the known defect classes; every single-defect variant of a good flow (structure, " +
 		"stream/flow/processor ends, conditions, dangling processor / flow references, processor types and parameters, " +
-		"roots, unconnected processors, duplicate connections, cycles in either direction, self references); exhaustive " +
+		"roots, unconnected processors, duplicate connections, cycles in either direction, self references); stale foreign " +
+		"roots (a flow naming an incorporated flow's processor as its own stream entry x what its response direction does x " +
+		"a bystander flow that needs a foreign root it cannot get; order-dependent members run 24 times through the " +
+		"validator and the gateway load); layered DAGs of depth 1-10 with two processors per layer, each connected to both " +
+		"of the next layer (on one condition up to depth 7: 2^depth paths all walked; on hit / miss up to depth 10); exhaustive " +
 		"response directions over GenerateResponse + k Filters (every subset of the possible connections x every entry " +
 		"point incl. none; k = 1 complete, k = 2 complete in the thorough tier and every 5th in the quick one, k = 3 a random " +
 		"sample of sparse subsets) and exhaustive " +
@@ -348,6 +356,15 @@ func main() {
 	}
 	// 1b. status filters next to early responses on overlapping URLs
 	items = append(items, statusEarlyItems(r.Fork(33))...)
+	// 1c. stale foreign roots (F-C05l)
+	items = append(items, foreignRootItems()...)
+	// 1d. layered DAGs (2^depth paths; the cycle search and - when every Filter hits - the walk follow them all)
+	for depth := 1; depth <= 10; depth++ {
+		if depth <= 7 {
+			items = append(items, Item{Label: "ladder-same-condition", Config: ladderConfig(depth, true)})
+		}
+		items = append(items, Item{Label: "ladder-two-conditions", Config: ladderConfig(depth, false)})
+	}
 	// 2. single-defect variants
 	items = append(items, defectVariants()...)
 	// 3. response / request shapes
@@ -460,7 +477,7 @@ func main() {
 func replay(o *c.Out, k *Case) {
 	switch k.Kind {
 	case "load", "txn":
-		it := Item{Label: k.Label, Config: *k.Config}
+		it := Item{Label: k.Label, Config: *k.Config, Repeat: k.Repeat}
 		if k.Txn != nil {
 			it.Txns = []Txn{*k.Txn}
 		}
